@@ -107,7 +107,12 @@ def gen_one(rng, i, tier):
         if rng.random() < 0.3:
             ep = en = base_
         narrow, huge = None, True
-    return {"stream": stream, "kind": kind, "pos": pos, "neg": neg, "ep": ep, "en": en, "sc": sc, "ec": ec,
+    upd = {}
+    if dt is None and not huge and rng.random() < 0.12:
+        # the object is built with other easy counts, queried, and then UPDATED (nb_easy_pos / nb_easy_neg are plain attributes;
+        # a monitoring job adds the day's easy accepts): eer() afterwards is the eer of the object as it is now
+        upd = {"ep0": rng.choice([0, 3, 40, 7 * len(pos)]), "en0": rng.choice([0, 5, 25, 9 * len(neg)])}
+    return {"stream": stream, "kind": kind, "pos": pos, "neg": neg, "ep": ep, "en": en, "sc": sc, "ec": ec, **upd,
             "narrow": narrow, "prior": rng.random() < 0.3, "dt": dt, "huge": huge,
             "route": routes.pick(rng, 0.15) if (dt is None and not huge) else None, "rseed": rng.randint(0, 2**31 - 1)}
 
@@ -128,7 +133,12 @@ def build(inp) -> Case:
                    equal_class=ec)
     else:
         pa_, na_ = np.array(pos, dtype=float), np.array(neg, dtype=float)
-        s = Scores(pa_, na_, nb_easy_pos=ep, nb_easy_neg=en, score_class=sc, equal_class=ec)
+        s = Scores(pa_, na_, nb_easy_pos=inp.get("ep0", ep), nb_easy_neg=inp.get("en0", en), score_class=sc, equal_class=ec)
+        if "ep0" in inp:
+            for name, args in (("eer", ()), ("threshold_at_fpr", (0.3,)), ("threshold_at_fnr", (0.2,))):
+                common.call(getattr(s, name), *args)
+            _ = (s.hard_pos_ratio, s.hard_neg_ratio, s.easy_ratio)
+            s.nb_easy_pos, s.nb_easy_neg = ep, en
     pre = []
     if not inp.get("dt"):
         # a second object from reversed views of the same buffers: constructors take sorted copies (harness/routes.py)
@@ -171,6 +181,8 @@ def build(inp) -> Case:
         tags.append("easy>=5e7")
     if routed:
         tags.append("route=" + routed)
+    if "ep0" in inp:
+        tags.append("easy-counts-updated-after-queries")
     if inp.get("prior"):
         tags.append("prior-calls")
     if ep or en:
